@@ -69,9 +69,30 @@ first={ # detection on first pass, strengthening
 'C18-w6-m1':('MISSED at first (no uncaught error came from the outermost form of a macro expansion)','macros whose expansion is the failing call, nothing catching the error'),
 'C18-w6-m2':('MISSED at first (the evaluation as a whole was never cancelled)','fault host-cancel (a builtin cancels the whole evaluation) and try forms whose handler value is not a call'),
 'C18-w6-m3':('caught at once',None),
+'C02-w7-m1':('MISSED at first (no JSON document was a binary value)','binary values holding JSON text with comments, json-decode of pool binaries'),
+'C02-w7-m2':('caught at once',None),
+'C02-w7-m3':('MISSED at first (no error object wrapping a long sequence was rendered as text)','sequences of 10-12 elements in the pool; error-string / str of error objects that wrap pool sequences'),
+'C03-w7-m1':('MISSED at first (nothing made in a handler outlived it)','a closure made inside a handler that reads the catch variable after the handler has returned and another handler has run'),
+'C03-w7-m2':('caught at once',None),
+'C03-w7-m3':('MISSED at first, then HARNESS TROUBLE (after the leak the standard libraries no longer load in that process); caught after a soak program (ten thousand failures caught by try forms in one evaluation), set-up failures counted as violations, and replay files written without in-process confirmation in the one-process-per-run mode',None),
+'C07-w7-m1':('MISSED at first (a retry loop inside swap! cost no simulated time and no program kept it spinning)','retry rounds of swap! are charged like loop iterations; an atom that holds itself swapped through builtins that write it again'),
+'C07-w7-m2':('caught at once',None),
+'C07-w7-m3':('MISSED at first (no handler probe was evaluated by the body of a future)','handler probes inside futures'),
+'C09-w7-m1':('MISSED: needs one swap! to lose a thousand compare-and-set rounds in a row; no scheduling policy of the simulator produces that (see DESIGN.md §10)',None),
+'C09-w7-m2':('caught at once (printing is an operation of the history)',None),
+'C09-w7-m3':('MISSED: needs a memoize table of more than 512 entries and an eviction between two derefs of one lookup (see DESIGN.md §10)',None),
+'C10-w7-m1':('caught at once',None),
+'C10-w7-m2':('caught at once',None),
+'C10-w7-m3':('MISSED at first (no error outcome had passed through two derefs before)','bodies whose error has passed through two nested futures (race oracle)'),
+'C11-w7-m1':('MISSED at first (nobody redefined a macro while others used it)','a thread that defines the shared macro again and again while programs use it'),
+'C11-w7-m2':('MISSED at first (keywords made at run time were already known to the process after the solo runs)','keywords made from a per-call nonce with keyword and read-string (race oracle)'),
+'C11-w7-m3':('MISSED at first (no macro expansion contained a closure over the macro function\'s parameter)','such a macro, used next to library macros'),
+'C18-w7-m1':('MISSED at first (no program looked at the metadata of a function bound with def)','templates calling meta on def-ined functions'),
+'C18-w7-m2':('MISSED at first (every macro was pure)','an impure macro expanded three times at one call site; macro names passed as data; a macro redefined between two calls of one function'),
+'C18-w7-m3':('caught at once',None),
 }
 rows=[]
-for d in sorted(glob.glob('/verif/seeded/*-w[456]-m*')):
+for d in sorted(glob.glob('/verif/seeded/*-w[4567]-m*')):
     id=os.path.basename(d)
     notes=open(d+'/NOTES.md').read()
     head=notes.splitlines()[0]
@@ -90,5 +111,5 @@ for d in sorted(glob.glob('/verif/seeded/*-w[456]-m*')):
      "clauses_reporting_it":cl}
     json.dump(meta,open(d+'/meta.json','w'),indent=1,ensure_ascii=False)
     rows.append("| %s | %s | %s | %s |"%(id,what.replace('|','/'),meta['detection'].replace('|','/'),cl))
-open('/tmp/w456rows.md','w').write('\n'.join(rows)+'\n')
-print(len(rows),sum(1 for r in clauses if '-w4-' in r or '-w5-' in r or '-w6-' in r))
+open('/tmp/w4567rows.md','w').write('\n'.join(rows)+'\n')
+print(len(rows),sum(1 for r in clauses if '-w4-' in r or '-w5-' in r or '-w6-' in r or '-w7-' in r))
